@@ -1,0 +1,85 @@
+//go:build verif && !(js && wasm)
+// +build verif
+// +build !js !wasm
+
+package tcell
+
+import (
+	"bytes"
+	"errors"
+
+	"github.com/gdamore/tcell/v2/terminfo"
+)
+
+// This file is only built with the "verif" build tag.  It exposes a few
+// internals of the terminfo screen to external verification harnesses.  It
+// adds no behaviour to the library.
+
+// VerifParser drives the input parser of a terminfo screen synchronously.
+type VerifParser struct {
+	t   *tScreen
+	buf bytes.Buffer
+}
+
+// VerifNewParser builds a terminfo screen for ti without a tty and without
+// starting any goroutine, with the given character set and logical size.
+func VerifNewParser(ti *terminfo.Terminfo, charset string, w, h int) (*VerifParser, error) {
+	s, err := NewTerminfoScreenFromTtyTerminfo(nil, ti)
+	if err != nil {
+		return nil, err
+	}
+	t := s.(*baseScreen).screenImpl.(*tScreen)
+	enc := GetEncoding(charset)
+	if enc == nil {
+		return nil, errors.New("no such charset")
+	}
+	t.charset = charset
+	t.encoder = enc.NewEncoder()
+	t.decoder = enc.NewDecoder()
+	t.cells.Resize(w, h)
+	t.w, t.h = w, h
+	return &VerifParser{t: t}, nil
+}
+
+// Feed appends chunk to the pending input and runs the same
+// collectEventsFromInput pass that the main loop runs.  It returns the
+// decoded events and the number of bytes still buffered.
+func (p *VerifParser) Feed(chunk []byte, expire bool) ([]Event, int) {
+	p.buf.Write(chunk)
+	evs := p.t.collectEventsFromInput(&p.buf, expire)
+	return evs, p.buf.Len()
+}
+
+// VerifKeyCode is an entry of the key table.
+type VerifKeyCode struct {
+	Key Key
+	Mod ModMask
+}
+
+// VerifKeyTable returns a copy of the key table a screen builds for ti.
+func VerifKeyTable(ti *terminfo.Terminfo) (map[string]VerifKeyCode, error) {
+	s, err := NewTerminfoScreenFromTtyTerminfo(nil, ti)
+	if err != nil {
+		return nil, err
+	}
+	t := s.(*baseScreen).screenImpl.(*tScreen)
+	m := make(map[string]VerifKeyCode, len(t.keycodes))
+	for k, v := range t.keycodes {
+		m[k] = VerifKeyCode{Key: v.key, Mod: v.mod}
+	}
+	return m, nil
+}
+
+// VerifQueueLevels reports length and capacity of the event queue and of the
+// input chunk queue of a terminfo screen.
+func VerifQueueLevels(s Screen) (evLen, evCap, keyLen, keyCap int, ok bool) {
+	b, ok1 := s.(*baseScreen)
+	if !ok1 {
+		return
+	}
+	t, ok2 := b.screenImpl.(*tScreen)
+	if !ok2 {
+		return
+	}
+	return len(t.eventQ), cap(t.eventQ), len(t.keychan), cap(t.keychan), true
+}
